@@ -81,8 +81,28 @@ def specs(tier: str):
     return out
 
 
+HISTORY_DEPTH = {"quick": {"Stack": 9, "ParserState": 7}, "thorough": {"Stack": 12, "ParserState": 9}}
+
+
+def history_part(tier):
+    """(ii) all histories of push/pop/checkpoint/commit/rollback: the explicit-state search of C09."""
+    from .. import bfs
+    from . import c09
+
+    out = {"violations": [], "states": 0, "transitions": 0, "depths": HISTORY_DEPTH[tier]}
+    for m in (c09.StackMachine(), c09.StateMachine()):
+        d = HISTORY_DEPTH[tier][m.name]
+        res = bfs.run(m, d, split_at=min(d, 6) if d > 6 else None)
+        out["states"] += res["states"]
+        out["transitions"] += res["transitions"]
+        for v in res["violations"][:3]:
+            out["violations"].append({"family": f"bfs:{m.name}", "machine": m.name, "mode": "-", "grammar": "", "rule": "", "input": "", **v})
+    return out
+
+
 def run(tier: str) -> int:
     k, L = BOUNDS[tier]
+    hist = history_part(tier)
     return gc.run_model_check(
         C05(), specs(tier), tier, "model_checking",
         bounds=[{"inner_size": k, "L": L, "alphabet": "ab", "pre": list(PRES), "wrappers": list(WRAPS), "failer": [False, True]}],
@@ -92,8 +112,13 @@ def run(tier: str) -> int:
              "UNSPEC cases (PEEK/POP on an empty stack, out-of-range slice) are judged only by 'no exception other than PestParsingError'. Non-trivial: the reference run backtracked or returned pairs. "
              "The history-level half of the quantifier is C09's BFS over ParserState.checkpoint/ok/restore x push/drop.",
         assumptions=["no implicit trivia in this family (trivia x stack interplay is exercised relationally by C01/C02)"],
+        extra_cov={"history_level": {k2: v for k2, v in hist.items() if k2 != "violations"}}, extra_violations=hist["violations"],
     )
 
 
 def replay_case(case: dict) -> bool:
+    if case.get("machine"):
+        from . import c09
+
+        return c09.replay_case(case)
     return gc.replay_model_case(case)
